@@ -282,3 +282,92 @@ def atom_sequence(ctx, case):
     rids, idx = out.value
     want = _expected(TOPOLOGIES[tname], DOC[pname])
     ctx.ensure("rows==documented-atoms-of-same-chain-neighbours-in-residue-order", [list(map(int, r)) for r in idx.tolist()] == want)
+
+
+# =====================================================================================================
+# Python dispatch of compute_angles / compute_dihedrals: which kernel, with which box and which `orthogonal` flag
+class _AnglesArr:
+    """traj.unitcell_angles (F, 3): np.allclose(., 90) is the conjunction of the per-frame orthogonality facts of the frames it covers"""
+    is_ndarray = True
+
+    def __init__(self, frames):
+        self.frames = tuple(frames)
+
+    def sym_getitem(self, interp, k):
+        if isinstance(k, int):
+            return _AnglesArr([self.frames[k]])
+        if isinstance(k, slice):
+            return _AnglesArr(self.frames[k])
+        raise core.Unsupported("unitcell_angles index")
+
+    def sym_getattr(self, interp, name):
+        if name == "shape":
+            return (len(self.frames), 3)
+        raise core.Unsupported("unitcell_angles." + name)
+
+
+def dispatch(ctx, case):
+    fn, periodic, have_cell, opt = case
+    from mdvc.npmodel import NumpyT
+    from mdvc.pyinterp import Namespace
+    from mdvc.tarr import TArr, TCond
+    from mdvc.core import SBool
+    from .c05 import BoxSeq, ortho
+
+    F = 3
+    calls = []
+
+    class NP(NumpyT):
+        def np_allclose(self, interp, a, b, **k):
+            if isinstance(a, _AnglesArr) and b == 90:
+                return SBool(z3.And(*[ortho(f) for f in a.frames]))
+            raise core.Unsupported("np.allclose")
+
+        def np_logical_and(self, interp, a, b):
+            return TCond(("and", getattr(a, "key", a), getattr(b, "key", b)))
+
+        def np_zeros(self, interp, shape, **k):
+            return TArr(("zeros", core.fresh_name("out")), shape=shape)
+
+    im = ctx.interp.import_models
+    im["numpy"] = NP()
+    kern = {"compute_angles": ("_angle_mic", "_angle"), "compute_dihedrals": ("_dihedral_mic", "_dihedral")}[fn]
+    geom = Namespace("_geometry", **{k: (lambda *a, k=k: calls.append((k, a))) for k in kern})
+    im["mdtraj.geometry"] = Namespace("geometry", _geometry=geom, distance=Namespace("distance"))
+    mod = ctx.module("mdtraj/geometry/angle.py" if fn == "compute_angles" else "mdtraj/geometry/dihedral.py")
+    mod.globals["ensure_type"] = lambda val, **k: val  # shape/dtype validation: not part of this contract
+    ref = "_angle" if fn == "compute_angles" else "_dihedral"
+    mod.globals[ref] = lambda *a: calls.append(("python:" + ref, a))
+    xyz = TArr("xyz", shape=(F, 9, 3))
+    idx = TArr("indices", shape=(2, 3 if fn == "compute_angles" else 4), dtype="int32")
+
+    class Traj:
+        pass
+    t = Traj()
+    t.xyz, t.n_atoms, t._have_unitcell = xyz, 9, have_cell
+    t.unitcell_vectors = BoxSeq(F) if have_cell else None
+    t.unitcell_angles = _AnglesArr(range(F)) if have_cell else None
+    out = ctx.call(mod.globals[fn], t, idx, periodic=periodic, opt=opt)
+    if out.raised:
+        ctx.ensure("only-the-index-range-check-may-refuse", out.exc.name == "ValueError" and not calls)
+        return
+    ctx.cover("kernel-called")
+    ctx.ensure("exactly-one-kernel-call", len(calls) == 1)
+    if len(calls) != 1:
+        return
+    name, a = calls[0]
+    mic = periodic and have_cell
+    if opt:
+        ctx.ensure("periodic-and-cell-present<=>minimum-image-kernel", name == (kern[0] if mic else kern[1]))
+    else:
+        ctx.ensure("opt=False:reference-implementation-with-the-caller's-periodic-flag", name == "python:" + ref and a[2] is periodic)
+    if opt and mic and name == kern[0]:
+        b, flag = a[2], a[4]
+        ctx.ensure("box-transposed-exactly-once-and-copied", isinstance(b, BoxSeq) and b.transposed == 1 and b.copied)
+        ctx.ensure("orthorhombic-kernel-iff-EVERY-frame-is-orthogonal", core.as_bool_term(flag) == z3.And(*[ortho(f) for f in range(F)]))
+    if opt:
+        ctx.ensure("coordinates-and-indices-passed-unchanged", a[0] is xyz and a[1] is idx)
+
+
+contract("C07", "mdtraj/geometry/", "compute_angles|compute_dihedrals(dispatch)", cases=[(f, p, c, o) for f in ("compute_angles", "compute_dihedrals") for p in (True, False) for c in (True, False) for o in (True, False)],
+         replay="angles", covers=["kernel-called"])(dispatch)
